@@ -458,6 +458,40 @@ def r03_8(ctx):
         check("DataFrame", {"frm_num": 1, "re_tx": 0, "ack_num": 1, "ezsp_frame": bytes([r ^ 0x42])}, spec_data(1, 0, 1, bytes([r ^ 0x42])))
     can = repo.cls(ASH, "Reserved").members()["CANCEL"]
     check("RstFrame", {}, spec_with_crc(b"\xC0"), prefix=(can,))
+    # histories on ONE protocol object: every write is a function of its own frame only - frames that differ in a single
+    # field (nRdy, reserved bit, class) written one after the other, and a write that follows a write the transport refused
+    seq = [("AckFrame", {"res": 0, "ncp_ready": 0, "ack_num": 3}, 0x83), ("AckFrame", {"res": 0, "ncp_ready": 1, "ack_num": 3}, 0x8B),
+           ("NakFrame", {"res": 0, "ncp_ready": 0, "ack_num": 3}, 0xA3), ("AckFrame", {"res": 1, "ncp_ready": 0, "ack_num": 3}, 0x93),
+           ("AckFrame", {"res": 0, "ncp_ready": 0, "ack_num": 3}, 0x83), ("NakFrame", {"res": 0, "ncp_ready": 0, "ack_num": 0}, 0xA0)]
+    for fail_at in (None, 1):
+        state = {"n": 0}
+
+        def tw(px_, t, a, k, fr):
+            state["n"] += 1
+            return Outcomes(RAISE("OSError")) if fail_at is not None and state["n"] == fail_at + 1 else Outcomes(OK(None))
+
+        pxs = PX(repo, inline=lambda g, aw: not g.is_async, max_depth=6,
+                 models=[("binascii.crc_hqx", crc_model), ("self._transport.write", tw), ("*.is_closing", lambda px_, t, a, k, fr: False)])
+
+        def entry():
+            state["n"] = 0
+            me = self_obj(cls, {"_transport": Obj(TypeRef("Transport"), {}, tag="transport")})
+            pxs.top_frame = None
+            for cn, fields, cb in seq:
+                try:
+                    pxs.call_function(f, me, [Obj(repo.cls(ASH, cn), dict(fields), tag="frame")], {}, None)
+                except Exc as ex:
+                    if ex.cls_name != "OSError":
+                        raise
+            return None
+
+        for p in pxs._run(entry):
+            got = [as_bytes(e.args[0]) if e.args else None for e in p.events if e.kind == "call" and e.what.endswith("_transport.write")]
+            want = [spec_stuff(spec_with_crc(bytes([cb]))) + b"\x7e" for _, _, cb in seq]
+            ctx.require(p.terminal == "return" and got == want, f"write-sequence:{'refused-write' if fail_at is not None else 'plain'}",
+                        f"a sequence of {len(seq)} ACK/NAK writes on one protocol object{' (the transport refuses write #2)' if fail_at is not None else ''} puts "
+                        f"{[g.hex() if g else g for g in got]} on the wire, must be {[w.hex() for w in want]} (each write depends on its own frame only)",
+                        func=f, trace=p.trace(30))
     sr = repo.func(f"{ASH}:AshProtocol.send_reset")
     ctx.fn(sr)
     for p in px.explore(sr, lambda: (self_obj(cls, {"_transport": Obj(TypeRef("Transport"), {}, tag="transport")}), {})):
